@@ -227,3 +227,75 @@ func ScaleProfile() Profile {
 		}
 	}}
 }
+
+// Profile "siblings": two or three comprehensions, one after the other in the
+// same function or at top level, that use the same variable names; closures
+// made by an earlier one are called after a later one has run, and a later one
+// may read its variable before assigning it.  (Each comprehension has its own
+// block: nothing of one is visible in another.)
+func SiblingsProfile() Profile {
+	type form struct {
+		mk      func(lits [2]int64) *Node
+		closure bool // the elements are functions
+	}
+	l := func(a, b int64) *Node { return List(Num(a), Num(b)) }
+	forms := []form{
+		{func(v [2]int64) *Node { return ListComp(Name("x"), ForC(Name("x"), l(v[0], v[1]))) }, false},
+		{func(v [2]int64) *Node { return ListComp(Lambda(nil, Name("x")), ForC(Name("x"), l(v[0], v[1]))) }, true},
+		{func(v [2]int64) *Node {
+			return ListComp(Lambda(nil, Tuple(Name("x"), Name("y"))), ForC(Tuple(Name("x"), Name("y")), List(Tuple(Num(v[0]), Num(v[1])), Tuple(Num(v[1]), Num(v[0])))))
+		}, true},
+		{func(v [2]int64) *Node { // reads x before the clause that binds it has run
+			return ListComp(Name("x"), ForC(Name("y"), List(Num(0))), ForC(Name("x"), List(Name("x"))))
+		}, false},
+		{func(v [2]int64) *Node {
+			return ListComp(Lambda(nil, Bin("+", Name("x"), Name("y"))), ForC(Name("y"), l(v[0], v[1])), ForC(Name("x"), List(Name("y"))))
+		}, true},
+		{func(v [2]int64) *Node {
+			return ListComp(Lambda([]*Param{PD("d", Name("x"))}, Tuple(Name("d"), Name("x"))), ForC(Name("x"), l(v[0], v[1])), IfC(Name("x")))
+		}, true},
+	}
+	lits := [][2]int64{{1, 2}, {7, 8}, {0, 5}}
+	callAll := func(name string) *Node { return ListComp(Call(Name("q")), ForC(Name("q"), Name(name))) }
+	return Profile{Name: "siblings", MaxLevel: 2, Level: func(n int, yield func(Program) bool) {
+		k := n + 1 // number of comprehensions
+		idx := make([]int, k)
+		var rec func(i int) bool
+		rec = func(i int) bool {
+			if i == k {
+				for scope := 0; scope < 2; scope++ {
+					var body []*Node
+					names := []string{"ca", "cb", "cc"}
+					for j := 0; j < k; j++ {
+						body = append(body, Assign("=", Name(names[j]), forms[idx[j]].mk(lits[j])))
+					}
+					for j := 0; j < k; j++ {
+						if forms[idx[j]].closure {
+							body = append(body, ExprS(Probe(0, callAll(names[j]))))
+						} else {
+							body = append(body, ExprS(Probe(0, Name(names[j]))))
+						}
+					}
+					var st []*Node
+					if scope == 0 {
+						st = body
+					} else {
+						st = []*Node{Def("f", nil, append(body, Return(Num(0)))), Assign("=", Name("r"), Call(Name("f")))}
+					}
+					if !yield(Program{Profile: "siblings", Stmts: st}) {
+						return false
+					}
+				}
+				return true
+			}
+			for f := range forms {
+				idx[i] = f
+				if !rec(i + 1) {
+					return false
+				}
+			}
+			return true
+		}
+		rec(0)
+	}}
+}
